@@ -756,9 +756,18 @@ impl LowerWithEnv for Ty {
                     TypeLookup::Closure(id) => tykind!(env.closure_kind(id), Closure, id),
                     TypeLookup::Opaque(id) => tykind!(env.opaque_kind(id), OpaqueType, id),
                     TypeLookup::Coroutine(id) => tykind!(env.coroutine_kind(id), Coroutine, id),
-                    TypeLookup::Foreign(_) | TypeLookup::Trait(_) => {
-                        panic!("Unexpected apply type")
+                    TypeLookup::Foreign(id) => {
+                        // Foreign types take no parameters.
+                        if !args.is_empty() {
+                            return Err(RustIrError::IncorrectNumberOfTypeParameters {
+                                identifier: name.clone(),
+                                expected: 0,
+                                actual: args.len(),
+                            });
+                        }
+                        chalk_ir::TyKind::Foreign(id).intern(interner)
                     }
+                    TypeLookup::Trait(_) => return Err(RustIrError::NotStruct(name.clone())),
                 }
             }
 
